@@ -1,4 +1,24 @@
-(* C08 — Brace-delimited configs become an indentation tree that mirrors the nesting. *)
+(* C08 — Brace-delimited configs become an indentation tree that mirrors the nesting.
+
+   Model: Model/Brace.v.  brace_lines sw txt = the line texts BraceParse(txt, stop_width = sw) produces
+   (incl. the scanner that pyparsing's nested_expr amounts to); convert_junos sw lines =
+   convert_junos_to_ios(lines), which is what CiscoConfParse(lines, syntax='junos') parses afterwards;
+   parents_model = the parent rule of ConfigList.bootstrap (property C02) on (indent, is_config_line,
+   is_comment) triples, line_info computes the triple of a text.
+
+   Spec: a statement tree (tree / forest), flatten_forest = one line per statement in source order,
+   indented sw spaces per enclosing block; forest_parents = the index of the statement that opened the
+   innermost enclosing block (the line itself at top level; a comment directly below a more indented
+   line keeps itself, C02's documented exception).  A layout (ltree / lforest) is the tree decorated
+   with ALL the white space, semicolons and braces of one rendering:
+     LLeaf pre text trail semi trail2 term    renders as  pre text trail [;] trail2 term
+     LBlock pre text gap kids pre_close closed             pre text gap { kids pre_close [}]
+   wfT_lforest: pre / gap / pre_close are arbitrary strings over space, TAB, LF, CR (so: any indent
+   width, tab or space indentation, brace on the same or on the next line, blank lines, one-line
+   blocks); trail / trail2 are spaces and tabs; term starts with a line break, or is empty for the last
+   statement before a closing brace / the end of the text; text is a statement text (wf_text: printable
+   ASCII without braces plus spaces, not starting with a space or quote, not ending with a space or
+   semicolon; comment lines are statements starting with '#'). *)
 From Coq Require Import NArith List Bool Arith.
 Require Import CCP.Lib.PyStr CCP.Lib.Res CCP.gen.TabC08 CCP.Model.Brace CCP.Proofs.C08Proofs.
 Import ListNotations.
@@ -8,8 +28,110 @@ Theorem C08_tables_as_modelled :
   /\ forallb (fun c => N.ltb c 300) pp_printables = true
   /\ forallb (fun c => Bool.eqb (is_pp_white c) (existsb (N.eqb c) pp_white_chars)) (map N.of_nat (seq 0 300)) = true
   /\ forallb (fun c => N.ltb c 300) pp_white_chars = true
-  /\ brace_stop_width = 4 /\ convert_stop_width = 4
-  /\ brace_exclude_chars = [LBRACE; RBRACE] /\ brace_white_arg = [SP] /\ brace_opener = [LBRACE] /\ brace_closer = [RBRACE]
-  /\ junos_comment_delims = [[HASH]].
+  /\ brace_stop_width = 4 /\ convert_stop_width = 4 /\ junos_comment_delims = [[HASH]].
 Proof. exact tables_as_modelled. Qed.
 Print Assumptions C08_tables_as_modelled.
+
+(* ---- brace_roundtrip: every complete rendering of every statement tree parses to the flattened tree:
+   one line per statement, source order, text preserved, sw spaces per enclosing block, nothing for "}" *)
+Theorem C08_brace_roundtrip : forall sw top fin,
+  wfT_lforest true top = true -> all_ws4 fin = true -> unclosed_forest top = 0 ->
+  brace_lines sw (render_forest top ++ fin) = Ok (flatten_forest sw 0 (erase_forest top)).
+Proof. exact brace_roundtripT. Qed.
+Print Assumptions C08_brace_roundtrip.
+
+(* the same as convert_junos_to_ios sees it (a non-empty list of lines joined by LF), at the source's stop_width *)
+Theorem C08_convert_roundtrip : forall lines top fin,
+  lines <> [] -> join [NL] lines = render_forest top ++ fin ->
+  wfT_lforest true top = true -> all_ws4 fin = true -> unclosed_forest top = 0 ->
+  convert_junos convert_stop_width lines = Ok (flatten_forest 4 0 (erase_forest top)).
+Proof.
+  intros lines top fin Hne E Hwf Hfin Hu. unfold convert_junos. destruct lines as [|l ls]; [congruence|].
+  rewrite E. apply (brace_roundtripT 4); assumption.
+Qed.
+Print Assumptions C08_convert_roundtrip.
+
+(*  a { b "x y" ;          -- K&R + trailing spaces; Allman; one-line block; blank line; comment line
+      c
+      {
+        d; }
+      # note
+
+      e { f }
+    }
+    g;                                                                                            *)
+Definition ex_layout : lforest :=
+  LCons (LBlock [] [97]%N [32]%N
+           (LCons (LLeaf [32]%N [98; 32; 34; 120; 32; 121; 34]%N [32]%N true [32; 32]%N [10]%N)
+           (LCons (LBlock [32; 32]%N [99]%N [10; 32; 32]%N
+                     (LCons (LLeaf [10; 32; 32; 32; 32]%N [100]%N [] true [] []) LNil) [32]%N true)
+           (LCons (LLeaf [10; 32; 32]%N [35; 32; 110; 111; 116; 101]%N [] false [] [10; 10]%N)
+           (LCons (LBlock [32; 32]%N [101]%N [32]%N (LCons (LLeaf [32]%N [102]%N [] false [] []) LNil) [32]%N true)
+            LNil))))
+           [10]%N true)
+  (LCons (LLeaf [13; 10]%N [103]%N [] true [] []) LNil).
+Example C08_brace_roundtrip_ex :
+  wfT_lforest true ex_layout = true /\ unclosed_forest ex_layout = 0
+  /\ brace_lines 4 (render_forest ex_layout ++ [10]%N)
+     = Ok [[97]; [32; 32; 32; 32; 98; 32; 34; 120; 32; 121; 34]; [32; 32; 32; 32; 99];
+           [32; 32; 32; 32; 32; 32; 32; 32; 100]; [32; 32; 32; 32; 35; 32; 110; 111; 116; 101];
+           [32; 32; 32; 32; 101]; [32; 32; 32; 32; 32; 32; 32; 32; 102]; [103]]%N.
+Proof. repeat split; vm_compute; reflexivity. Qed.
+
+(* a tab-indented rendering:  a {<LF><TAB>b<TAB>;<LF>} *)
+Example C08_brace_roundtrip_tab_ex :
+  let l := LCons (LBlock [] [97]%N [32]%N (LCons (LLeaf [10; 9]%N [98]%N [9]%N true [] [10]%N) LNil) [] true) LNil in
+  wfT_lforest true l = true /\ wf_lforest true l = false /\ brace_lines 4 (render_forest l) = Ok [[97]; [32; 32; 32; 32; 98]]%N.
+Proof. repeat split; vm_compute; reflexivity. Qed.
+
+(* ---- brace_unclosed_raises: if ANY closing brace of a rendering is missing the parser raises *)
+Theorem C08_brace_unclosed_raises : forall sw top fin,
+  wfT_lforest true top = true -> all_ws4 fin = true -> 0 < unclosed_forest top ->
+  brace_lines sw (render_forest top ++ fin) = Raise E_ParseException.
+Proof. exact brace_unclosed_raisesT. Qed.
+Print Assumptions C08_brace_unclosed_raises.
+Theorem C08_convert_unclosed_raises : forall lines top fin,
+  lines <> [] -> join [NL] lines = render_forest top ++ fin ->
+  wfT_lforest true top = true -> all_ws4 fin = true -> 0 < unclosed_forest top ->
+  convert_junos convert_stop_width lines = Raise E_ParseException.
+Proof.
+  intros lines top fin Hne E Hwf Hfin Hu. unfold convert_junos. destruct lines as [|l ls]; [congruence|].
+  rewrite E. apply brace_unclosed_raisesT; assumption.
+Qed.
+Print Assumptions C08_convert_unclosed_raises.
+Example C08_brace_unclosed_raises_ex :
+  let l := LCons (LBlock [] [97]%N [32]%N (LCons (LBlock [10; 32]%N [98]%N [32]%N (LCons (LLeaf [32]%N [99]%N [] true [] [10]%N) LNil) [] false)
+                                           (LCons (LLeaf [32]%N [100]%N [] true [] [10]%N) LNil)) [] true) LNil in
+  wfT_lforest true l = true /\ 0 < unclosed_forest l /\ brace_lines 4 (render_forest l) = Raise E_ParseException.
+Proof. repeat split; vm_compute; repeat constructor. Qed.
+
+(* ---- brace_parents: the parent rule of the ordinary bootstrap, applied to the lines the brace parser
+   returns, gives for every line the statement that opened its innermost enclosing block *)
+Theorem C08_brace_parents : forall sw, 0 < sw -> forall f, wf_forest f = true ->
+  parents_model (map (line_info [HASH]) (flatten_forest sw 0 f)) = forest_parents None false 0 f.
+Proof. exact brace_parents. Qed.
+Print Assumptions C08_brace_parents.
+Example C08_brace_parents_ex :
+  wf_forest (erase_forest ex_layout) = true
+  /\ forest_parents None false 0 (erase_forest ex_layout) = [0; 0; 0; 2; 4; 0; 5; 7].
+Proof. split; vm_compute; reflexivity. Qed.
+
+(* the indentation of the result is monotone in the nesting depth: all lines of a forest at depth d are
+   indented at least d * sw (with equality for its roots) — the form in which this composes with C02 *)
+Theorem C08_flatten_indents : forall sw, 0 < sw -> forall f d, wf_forest f = true ->
+  Forall (fun y => d * sw <= fst (fst y)) (map (line_info [HASH]) (flatten_forest sw d f)).
+Proof. exact flatten_indents. Qed.
+Print Assumptions C08_flatten_indents.
+
+(* ---- the general statement behind both results: scanning a layout in the middle of a text *)
+Theorem C08_brace_lines_layout : forall sw top fin, wfT_lforest true top = true -> all_ws4 fin = true ->
+  brace_lines sw (render_forest top ++ fin)
+  = match unclosed_forest top with
+    | O => Ok (lines_forest sw 0 top)
+    | S _ => Raise E_ParseException
+    end.
+Proof.
+  intros sw top fin H1 H2. rewrite brace_lines_layoutT by assumption.
+  destruct (unclosed_forest top); [unfold prepend; cbn; rewrite app_nil_r; reflexivity | reflexivity].
+Qed.
+Print Assumptions C08_brace_lines_layout.
